@@ -229,7 +229,7 @@ def run(tier, seed, build):
         elif r["outcome"] == "ok":
             failures.append({"kind": "disagreement", "key": "model-rejects:" + str(m[1]), "summary": "model rejects (%s), implementation emits" % m[1], "replay": rep})
     return {"evaluations": len(cases), "distinct_nontrivial": len(nontrivial),
-            "rule": "45% generated components, 55% generated system libraries (as C02) compiled with the .des back-end; the .des is read by the harness, model and implementation compared line by line, and the constraint partition (classes with parity and allowed bases) over every position of every program structure is compared between the .des (incl. its auxiliary duplexes) and the source denotation; targets and objective lines checked. Non-trivial = has at least one structure",
+            "rule": "45% generated components, 55% generated system libraries (as C02) compiled with the .des back-end; the .des is read by the harness, model and implementation compared line by line, and the constraint partition (classes with parity and allowed bases) over every position of every program structure is compared between the .des (incl. its auxiliary duplexes) and the source denotation; targets and objective lines checked. Non-trivial = has at least one structure; in every fifth case the component files reach two quoted multipliers through a re-assigned `length` variable",
             "samples": [c["files"] for c in cases[:1]], "distribution": dist, "failures": failures}
 
 def replay(path):
